@@ -613,6 +613,8 @@ func (fv *FuncVerifier) execRangeMap(s *ast.RangeStmt, ls *LoopSpec, ord int, la
 	st.vars[seen] = mk(seenSort, "((as const %s) false)", seenSort.Name)
 	fv.seenStack = append(fv.seenStack, seen)
 	defer func() { fv.seenStack = fv.seenStack[:len(fv.seenStack)-1] }()
+	fv.rmStack = append(fv.rmStack, m)
+	defer func() { fv.rmStack = fv.rmStack[:len(fv.rmStack)-1] }()
 	fv.u.note("range over map: invariant proved for an arbitrary unvisited key (ghost set __seen), iterating over the entry-time key set")
 	cfg := &loopCfg{
 		loop: s, body: s.Body, ls: ls, ord: ord, label: label, extraMods: []types.Object{seen},
